@@ -399,7 +399,7 @@ func (t *tools) compile(b *batch) *stageFailure {
 		if r.code != 0 {
 			return &stageFailure{Stage: "compile-u", Diag: lastLines(r.out, 30), Timeout: r.timeout}
 		}
-		if f := fixUnusedImports(b.dir, "u"); f != nil {
+		if f := fixUnusedImports(b.dir, "u", b.hasTestFiles()); f != nil {
 			return f
 		}
 	}
@@ -418,10 +418,15 @@ var reUnusedImport = regexp.MustCompile(`(?m)^(?:vet: )?(\S+\.go):(\d+):\d+: "([
 
 // fixUnusedImports removes exactly the import specs the Go type checker reports as unused in the
 // unoptimised stage (it still carries the co import that only optimizeImports drops).
-func fixUnusedImports(dir, pkg string) *stageFailure {
-	for iter := 0; iter < 3; iter++ {
+func fixUnusedImports(dir, pkg string, withTests bool) *stageFailure {
+	for iter := 0; iter < 4; iter++ {
 		r := runCmd(dir, 5*time.Minute, nil, "go", "build", "-gcflags=-e", "./"+pkg)
 		ms := reUnusedImport.FindAllStringSubmatch(r.out, -1)
+		if len(ms) == 0 && withTests {
+			// the test files are only compiled by go test
+			r = runCmd(dir, 5*time.Minute, nil, "go", "test", "-vet=off", "-count=1", "-run", "^$", "./"+pkg)
+			ms = reUnusedImport.FindAllStringSubmatch(r.out, -1)
+		}
 		if len(ms) == 0 {
 			return nil
 		}
